@@ -1,5 +1,5 @@
 From Coq Require Extraction ExtrOcamlBasic.
-From OxiVerif Require Import Base.Conv IO.Circuit IO.Aiger IO.AigerParse.
+From OxiVerif Require Import Base.Conv IO.Circuit IO.Aiger IO.AigerParse IO.DimacsParse.
 Extraction Language OCaml.
 Extraction "model.ml" conv_anchor
   Circuit.simplify Circuit.eval Circuit.apply_gate_map
@@ -7,4 +7,5 @@ Extraction "model.ml" conv_anchor
   Circuit.should_err_b Circuit.err_ok_b Circuit.closed_b Circuit.reach
   Circuit.ok_answer_b Circuit.err_answer_b Circuit.lit_eqb
   Aiger.decode7 Aiger.encode7 Aiger.and_gate_bin Aiger.decode_gate Aiger.encode_gate
-  AigerParse.parse_aiger AigerParse.print_aag AigerParse.print_aig AigerParse.wf_b AigerParse.default_map.
+  AigerParse.parse_aiger AigerParse.print_aag AigerParse.print_aig AigerParse.wf_b AigerParse.default_map
+  DimacsParse.parse_cnf DimacsParse.print_cnf.
